@@ -1,3 +1,177 @@
-(* placeholder until Proofs/BufReaderP.v lands *)
-From GV Require Import Lib.Bytes Model.BufReader.
-Theorem C04_placeholder : bufsz = bufsz. Proof. reflexivity. Qed.
+(* Properties/C04.v — the buffered reader delivers the source bytes exactly, in order
+   (bufiox/defaultbuf.go: DefaultReader, BytesReader; bufiox/bufreader.go).
+   Only statements; proofs are in Proofs/BufReaderP.v.
+
+   Quantification: every source = (data, final error value, error-with-last-bytes flag, fragmentation
+   script: any list of chunk sizes incl. 0 = empty read; exhausted script = as much as fits), every
+   history of Next/Peek/Skip/ReadBinary/ReadLen/Release with any integer arguments, both constructors.
+   Sizes are mathematical integers (64-bit int and "allocation never fails" are assumptions of the
+   model, DESIGN 7); bufsz and the empty-read bound come from Gen/Consts.v and only their positivity
+   is used.
+
+   Vocabulary:  seg_at D c n = take n (drop c D)   — the n stream bytes at position c;
+                may_stall CH = the script contains max_empty consecutive zeros;
+                RInv D F CH c st = "st is a reader state over stream D (final error F, script CH) with the
+                cursor at c" (Proofs/BufReaderP.v, Inv);
+                fails D F CH c n e = (e = F and fewer than n bytes exist after c)
+                                     or (e = io.ErrNoProgress and the script can stall). *)
+From GV Require Import Lib.Bytes Lib.Res Gen.Consts Model.BufReader Spec.Cursor Proofs.BufReaderP.
+Open Scope N_scope.
+
+(* ---- refinement of the executable cursor specification, every history, every source ---- *)
+Theorem C04_reader_refines_cursor : forall s ops, spos s = 0 ->
+  cursor_run (sdata s) (sfinal s) (schunks s) cursor0 ops (snd (r_run (new_reader s) ops)) = true.
+Proof. exact reader_refines_cursor. Qed.
+
+Theorem C04_bytes_reader_refines_cursor : forall data bcap ops, len data <= bcap ->
+  cursor_run data e_eof [] cursor0 ops (snd (r_run (new_bytes_reader data bcap) ops)) = true.
+Proof. exact bytes_reader_refines_cursor. Qed.
+
+(* ---- the invariant: initially, and after every operation of every history ---- *)
+Theorem C04_inv_init_reader : forall s, spos s = 0 -> RInv (sdata s) (sfinal s) (schunks s) 0 (new_reader s).
+Proof. exact rinv_new_reader. Qed.
+
+Theorem C04_inv_init_bytes_reader : forall data bcap, len data <= bcap ->
+  RInv data e_eof [] 0 (new_bytes_reader data bcap).
+Proof. exact rinv_new_bytes_reader. Qed.
+
+Theorem C04_inv_step : forall D F CH c st o st' out,
+  RInv D F CH c st -> r_step st o = (st', out) -> exists c', c <= c' /\ RInv D F CH c' st'.
+Proof. exact rinv_step. Qed.
+
+Theorem C04_inv_history : forall D F CH ops c st st' outs,
+  RInv D F CH c st -> r_run st ops = (st', outs) -> exists c', c <= c' /\ RInv D F CH c' st'.
+Proof. exact rinv_run. Qed.
+
+(* ---- Next: exactly the n stream bytes at the cursor (cursor and ReadLen advance by n), or an error and
+        then cursor and ReadLen are unchanged ---- *)
+Theorem C04_next_exact_or_error : forall D F CH c st n st' out,
+  RInv D F CH c st -> (0 <= n)%Z -> r_next st n = (st', out) ->
+  (out = OBytes (seg_at D c (Z.to_N n)) /\ len (seg_at D c (Z.to_N n)) = Z.to_N n /\ c + Z.to_N n <= len D /\
+   RInv D F CH (c + Z.to_N n) st' /\ r_readlen st' = r_readlen st + Z.to_N n) \/
+  (exists e, out = OErr e /\ fails D F CH c (Z.to_N n) e /\ RInv D F CH c st' /\ r_readlen st' = r_readlen st).
+Proof. exact rinv_next. Qed.
+
+(* ---- Peek: the same bytes; never moves the cursor, never changes ReadLen ---- *)
+Theorem C04_peek_never_advances : forall D F CH c st n st' out,
+  RInv D F CH c st -> (0 <= n)%Z -> r_peek st n = (st', out) ->
+  RInv D F CH c st' /\ r_readlen st' = r_readlen st /\
+  ((out = OBytes (seg_at D c (Z.to_N n)) /\ len (seg_at D c (Z.to_N n)) = Z.to_N n /\ c + Z.to_N n <= len D) \/
+   (exists e, out = OErr e /\ fails D F CH c (Z.to_N n) e)).
+Proof. exact rinv_peek. Qed.
+
+(* ---- Skip: moves by n, or fails with an error and stays ---- *)
+Theorem C04_skip_exact_or_error : forall D F CH c st n st' out,
+  RInv D F CH c st -> (0 <= n)%Z -> r_skip st n = (st', out) ->
+  (out = OUnit /\ c + Z.to_N n <= len D /\ RInv D F CH (c + Z.to_N n) st' /\
+   r_readlen st' = r_readlen st + Z.to_N n) \/
+  (exists e, out = OErr e /\ fails D F CH c (Z.to_N n) e /\ RInv D F CH c st' /\ r_readlen st' = r_readlen st).
+Proof. exact rinv_skip. Qed.
+
+(* ---- ReadBinary(k-byte slice): m <= k, the m bytes copied are the stream bytes at the cursor, cursor and
+        ReadLen advance by exactly m, and m < k only together with an error ---- *)
+Theorem C04_readbinary_exact : forall D F CH c st k st' out,
+  RInv D F CH c st -> r_readbinary st k = (st', out) ->
+  exists m, m <= k /\ c + m <= len D /\ len (seg_at D c m) = m /\
+    RInv D F CH (c + m) st' /\ r_readlen st' = r_readlen st + m /\
+    ((m = k /\ out = ORead k (seg_at D c k) None) \/
+     (m < k /\ exists e, out = ORead m (seg_at D c m) (Some e) /\ fails D F CH c k e)).
+Proof. exact rinv_readbinary. Qed.
+
+(* ---- negative counts are rejected without touching the state ---- *)
+Theorem C04_negative_count : forall st n, (n < 0)%Z ->
+  r_next st n = (st, OErr e_negcount) /\ r_peek st n = (st, OErr e_negcount) /\ r_skip st n = (st, OErr e_negcount).
+Proof. exact negative_count. Qed.
+
+(* ---- Release keeps the cursor and resets ReadLen: ReadLen = bytes consumed since the last Release ---- *)
+Theorem C04_release_resets_readlen : forall D F CH c st,
+  RInv D F CH c st -> RInv D F CH c (r_release st) /\ r_readlen (r_release st) = 0.
+Proof. exact rinv_release. Qed.
+
+(* ---- (nil, nil) is never produced (D5), by any operation in any reachable state ---- *)
+Theorem C04_never_nil_nil : forall D F CH c st o st',
+  RInv D F CH c st -> r_step st o <> (st', ONil).
+Proof. exact rinv_never_nil. Qed.
+
+(* ---- the error surfaced is the source's own final error (then fewer than n bytes are left) or
+        no-progress (then the script contains max_empty consecutive empty reads); it is non-nil whenever
+        the source's error is ---- *)
+Theorem C04_error_provenance : forall D F CH c n e, fails D F CH c n e ->
+  (e = F /\ len D < c + n) \/ (e = e_noprogress /\ may_stall CH = true).
+Proof. exact fails_unfold. Qed.
+
+Theorem C04_error_non_nil : forall D F CH c n e, fails D F CH c n e -> F <> 0%Z -> e <> 0%Z.
+Proof. exact fails_nonnil. Qed.
+
+(* ---- progress: under a script with no run of max_empty zeros, a request that fits in the rest of the
+        stream succeeds (1-byte reads, short reads, up to max_empty-1 consecutive empty reads: D5) ---- *)
+Theorem C04_fitting_request_succeeds : forall D F CH c st n,
+  RInv D F CH c st -> may_stall CH = false -> c + n <= len D ->
+  (exists st', r_next st (Z.of_N n) = (st', OBytes (seg_at D c n)) /\ RInv D F CH (c + n) st') /\
+  (exists st', r_peek st (Z.of_N n) = (st', OBytes (seg_at D c n)) /\ RInv D F CH c st') /\
+  (exists st', r_skip st (Z.of_N n) = (st', OUnit) /\ RInv D F CH (c + n) st') /\
+  (exists st', r_readbinary st n = (st', ORead n (seg_at D c n) None) /\ RInv D F CH (c + n) st').
+Proof. exact fitting_request_succeeds. Qed.
+
+(* ---- a request that does not fit fails (it never returns short or foreign bytes) ---- *)
+Theorem C04_overlong_request_fails : forall D F CH c st n,
+  RInv D F CH c st -> len D < c + n ->
+  exists st' e, r_next st (Z.of_N n) = (st', OErr e) /\ fails D F CH c n e /\ RInv D F CH c st'.
+Proof. exact overlong_request_fails. Qed.
+
+(* ---- fuel: the read loop of acquireSlow never runs out of fuel (any larger fuel gives the same result) ---- *)
+Theorem C04_loop_fuel_never_exhausted : forall D F CH c st n extra,
+  RInv D F CH c st -> len (win st) < n ->
+  let st2 := grow_phase (alloc_phase st n) n in
+  let s := src st2 in let c0 := cur_of s in
+  read_loop (sfinal s) (swith s) (cap st2) (ri st2) n (loop_fuel c0 + extra) O c0 [] (len (win st2)) =
+  read_loop (sfinal s) (swith s) (cap st2) (ri st2) n (loop_fuel c0) O c0 [] (len (win st2)).
+Proof. exact rinv_loop_fuel_ok. Qed.
+
+(* ---- room: after the allocate/grow phases of acquireSlow the buffer can hold the whole request, so every
+        Read of the loop is offered at least one byte while the request is unsatisfied (an empty read is
+        never the reader's own doing) ---- *)
+Theorem C04_room_for_request : forall D F CH c st n,
+  RInv D F CH c st -> len (win st) < n ->
+  let st2 := grow_phase (alloc_phase st n) n in
+  win st2 = win st /\ ri st2 = ri st /\ ri st2 + n <= cap st2 /\
+  (forall wl, wl < n -> 0 < cap st2 - (ri st2 + wl)).
+Proof. exact rinv_room. Qed.
+
+(* ---- the loop's source cursor is the reference source semantics src_read (DESIGN 4) ---- *)
+Theorem C04_cursor_read_is_src_read : forall s room bs m e c',
+  cur_read (sfinal s) (swith s) (cur_of s) room = (bs, m, e, c') ->
+  src_read s room = (bs, e, src_at s c') /\ cur_of (src_at s c') = c'.
+Proof. exact cur_read_src_read. Qed.
+
+(* ---- non-vacuity ---- *)
+(* the hypotheses are satisfiable: a source at position 0; a script that cannot stall; a request that fits *)
+Example C04_nonvacuous_hyps :
+  let s := {| sdata := pat 3 10; sfinal := e_eof; swith := true; schunks := [1; 0; 0; 3]; spos := 0 |} in
+  spos s = 0 /\ may_stall (schunks s) = false /\ 0 + 4 <= len (sdata s) /\
+  RInv (sdata s) (sfinal s) (schunks s) 0 (new_reader s) /\ len [1; 2; 3] <= 5.
+Proof.
+  cbv zeta. split; [reflexivity|]. split; [vm_compute; reflexivity|]. split; [vm_compute; discriminate|].
+  split; [apply rinv_new_reader; reflexivity|vm_compute; discriminate].
+Qed.
+
+(* a script that can stall exists too (100 consecutive empty reads), and then the model reports
+   no-progress, not (nil, nil) *)
+Example C04_stall_is_no_progress :
+  let s := {| sdata := pat 2 10; sfinal := e_eof; swith := false; schunks := repeat 0 100 ++ [5]; spos := 0 |} in
+  may_stall (schunks s) = true /\ snd (r_next (new_reader s) 4) = OErr e_noprogress.
+Proof. vm_compute. split; reflexivity. Qed.
+
+(* the D4 witness (DESIGN 1.1): "0123456789" delivered together with io.EOF; ReadBinary(4) reports 4,
+   ReadLen 4, and the other 6 bytes stay readable *)
+Example C04_D4_witness :
+  let s := {| sdata := [48;49;50;51;52;53;54;55;56;57]; sfinal := e_eof; swith := true; schunks := []; spos := 0 |} in
+  snd (r_run (new_reader s) [RReadBinary 4; RReadLen; RReadBinary 6; RReadLen]) =
+  [ORead 4 [48;49;50;51] None; OLen 4; ORead 6 [52;53;54;55;56;57] None; OLen 10].
+Proof. vm_compute. reflexivity. Qed.
+
+(* the D5 witness: a source delivering one byte per Read; Next(bufsz+1) succeeds with exactly those bytes *)
+Example C04_D5_witness :
+  let s := {| sdata := pat 1 5000; sfinal := e_eof; swith := false; schunks := repeat 1 (N.to_nat 5002); spos := 0 |} in
+  snd (r_next (new_reader s) (Z.of_N (bufsz + 1))) = OBytes (pat 1 (bufsz + 1)).
+Proof. vm_compute. reflexivity. Qed.
